@@ -549,6 +549,16 @@ def run(ctx, res):
         cp = consumer_probes(ctx, res, jinja2, runner)
     finally:
         runner.close()
+    if broken:
+        # main.py adds the `C09:tie` violation only when the run found no concrete violation at all — but the known findings of this
+        # property are concrete violations on every run; report the broken tie unless an *unknown* concrete violation explains it
+        known = {k["key"] for k in core.load_known() if k.get("property") == ID and k.get("kind") == "known"}
+        if not any(v.key not in known and not v.no_input for v in res.violations):
+            res.violate("C09:tie", "; ".join([f"theorems of {m} no longer check over the regenerated inventory/guards" for m in ctx.proof_broken]
+                                               + list(ctx.tie_broken) + [f"{g} differs from its baseline" for g in ctx.gen_changed]),
+                        {"proof_broken": ctx.proof_broken, "tie_broken": ctx.tie_broken, "gen_changed": ctx.gen_changed,
+                         "searched": "4x programs, pair sweep, consumer and consumption probes: no input on which async and sync differ"},
+                        no_input=True)
     res.coverage.update({
         "evaluations": n_unit + ex["renders"] + pr["renders"] + ps["evaluations"] + cp["evaluations"],
         "distinct_nontrivial": pr["distinct"] + ex["expressions"],
